@@ -1401,7 +1401,7 @@ open MhlProps.C02rec MhlProps.C04
 
 /-- the one expected path that is gone, and not ignored, is the missing list -/
 theorem missing_single (hit : RelPath → Bool) (E F : List RelPath) (a : RelPath) (hnd : E.Nodup) (ha : a ∈ E)
-    (haF : a ∉ F) (hhit : hit a = false) (hrest : ∀ p ∈ E, p ≠ a → p ∈ F) :
+    (haF : a ∉ F) (hhit : hitAbove hit a = false) (hrest : ∀ p ∈ E, p ≠ a → p ∈ F) :
     missingAfter hit (E.filter fun p => !F.contains p) = [a] := by
   unfold missingAfter
   rw [List.filter_filter]
